@@ -63,7 +63,12 @@ STRINGS = [("s_empty", '""'), ("s_a", '"a"'), ("s_abc", '"abc def"'), ("s_fmt", 
            ("s_num", '"12345"'), ("s_mb", '"\\xe4\\xb8\\x96\\xe7\\x95\\x8c"'), ("s_hi", '"\\x80\\xff\\xfe"'),
            ("s_255", 'rep("x", 255)'), ("s_256", 'rep("y", 256)'), ("s_65535", 'rep("z", 65535)'), ("s_65536", 'rep("w", 65536)'),
            ("s_70000", 'rep("ab", 35000)'), ("s_pct_long", 'rep("%s", 5000)'), ("s_path", '"/t/dummy"'), ("s_dots", '"../../etc/passwd"'),
-           ("s_re", '"(a*)*b["'), ("s_nl", '"a\\nb\\nc"'), ("s_fn", '"lfun2"')]
+           ("s_re", '"(a*)*b["'), ("s_nl", '"a\\nb\\nc"'), ("s_fn", '"lfun2"'),
+           # lengths around the driver's fixed text buffers (100, 128, 200, 256, 1000, 1024, 2048, 4096), plain and as words / path / verb
+           ("s_99", 'rep("w", 99)'), ("s_100", 'rep("w", 100)'), ("s_101", 'rep("w", 101)'), ("s_128", 'rep("h", 128)'), ("s_200", 'rep("q", 200)'),
+           ("s_1000", 'rep("k", 1000)'), ("s_1023", 'rep("k", 1023)'), ("s_1024", 'rep("k", 1024)'), ("s_2047", 'rep("m", 2047)'),
+           ("s_2048", 'rep("m", 2048)'), ("s_2049", 'rep("m", 2049)'), ("s_4097", 'rep("n", 4097)'), ("s_words", 'rep("word ", 300)'),
+           ("s_longpath", '"/" + rep("d/", 700) + "x"'), ("s_verb", 'rep("v", 100) + " arg"'), ("s_dotc", 'rep("p", 250) + ".c"')]
 ARRAYS = [("a_empty", "({ })"), ("a_1", "({ 1 })"), ("a_mixed", '({ 1, "a", 2.5, ({ }) })'), ("a_8", "mkarr(8)"), ("a_1000", "mkarr(1000)"),
           ("a_max", "mkarr(15000)"), ("a_self", "selfarr()"), ("a_shared", "sharedarr()"), ("a_str", '({ "b", "a", "c" })'),
           ("a_dead", "holder_dead()"), ("a_nested", "({ ({ ({ 1 }) }) })")]
